@@ -122,7 +122,7 @@ func checkC06(c *Ctx) {
 			return containsCall(info, m, func(cl *ast.CallExpr, fn *types.Func) bool {
 				return fn != nil && inRepo(fn) && fn != rt.Obj && c.reaches(fn, isUpd, 4, map[*types.Func]bool{})
 			})
-		}, func(ret *ast.ReturnStmt) bool { return returnsNilError(info, ret) })
+		}, func(ret *ast.ReturnStmt) bool { return c.succeedsOnPath(info, fi.Decl.Body, ret) })
 		pk := fmt.Sprintf("tree.Tree.RemoveTips/removeTip→UpdateTipIndex#%d", i+1)
 		if res.ok {
 			c.OK("PATH", pk, call.Pos(), "every successful exit after a removal refreshes the tip-name index")
@@ -138,7 +138,7 @@ func checkC06(c *Ctx) {
 			return containsCall(info, m, func(cl *ast.CallExpr, fn *types.Func) bool {
 				return fn != nil && inRepo(fn) && fn != rt.Obj && c.reaches(fn, isReinit, 4, map[*types.Func]bool{})
 			})
-		}, func(ret *ast.ReturnStmt) bool { return returnsNilError(info, ret) })
+		}, func(ret *ast.ReturnStmt) bool { return c.succeedsOnPath(info, fi.Decl.Body, ret) })
 		pk2 := fmt.Sprintf("tree.Tree.RemoveTips/removeTip→ReinitInternalIndexes#%d", i+1)
 		if res2.ok {
 			c.OK("PATH", pk2, call.Pos(), "every successful exit after a removal recomputes the bitsets of the branches")
@@ -222,6 +222,9 @@ func checkC06(c *Ctx) {
 		c.Control("SCANNER-ERR", nv == 1, "fixture.C06ScanNoErr loops on Scan() without Err() (and C06ScanErr, which checks it, is accepted)")
 	}
 	c.checkPair("PAIR", map[string]bool{"removeTip": true})
+	c.Decides("ROOT-REPLACED (go/cfg): where removeTip has established that the node it is about to delete is the root, every successful path installs another root first")
+	c.rootReplaced("ROOT-REPLACED", []*FuncInfo{rt}, "yields the tree induced on the remaining tips")
+	c.Floor("ROOT-REPLACED", 1)
 	c.Decides("REVISIT: after removeTip has moved up a chain of emptied single-child nodes, every successful path tests the node it stopped at for having exactly two neighbours left (the suppression of the degree-2 node applies to that node too)")
 	if c.revisitAfterMove("REVISIT", rt, "no inner node of degree two left behind") == 0 {
 		c.Undecided("REVISIT", "tree.Tree.removeTip", rt.Decl.Pos(), "no re-assignment of a node local inside a loop found in removeTip (the walk up the emptied chain was the instance confirmed by hand)")
